@@ -86,6 +86,7 @@ def main():
         run("git -C /repo worktree add --detach %s HEAD -q" % swt, "/")
         run("git apply %s" % patch, swt)
         ENV["VERIF_STICK_DIR"] = swt
+        ENV["VERIF_EVIDENCE_DIR"] = "/tmp/seed-evidence"
     else:
         swt = None
         rc, out = run("git -C /repo status --porcelain", "/")
